@@ -34,6 +34,19 @@ def Out.isNote : Out → Bool
   | .readOk .. | .readFail .. | .writeOk .. | .writeFail .. => true
   | _ => false
 
+/-- the output concerns memory `k` only: a packet whose first byte is `k`, a notification for memory `k` -/
+def Out.About (k : Nat) : Out → Prop
+  | .send _ d => d.head? = some (UInt8.ofNat k)
+  | .readOk _ i _ _ | .readFail _ i _ _ | .writeOk _ i _ | .writeFail _ i _ => i = k
+  | .progress _ _ => True
+
+theorem headBytes_head (k a : Nat) (rest : List UInt8) (hk : k < 256) :
+    (headBytes k a ++ rest).head? = some (UInt8.ofNat k) := by
+  simp [headBytes, leBytes1, Nat.mod_eq_of_lt hk]
+
+theorem readReqBytes_head (k a n : Nat) (hk : k < 256) : (readReqBytes k a n).head? = some (UInt8.ofNat k) := by
+  simp [readReqBytes, leBytes1, Nat.mod_eq_of_lt hk]
+
 /-! ### the request objects -/
 
 theorem RReq.new_ok {tag id addr len : Nat} (h : (Ev.read tag id addr len).WF) : (RReq.new tag id addr len).Ok id :=
@@ -62,7 +75,7 @@ theorem WReq.advance_ok {w : WReq} {id : Nat} (h : w.Ok id) (hr : w.rest.length 
 theorem progressStep_fixed (w : WReq) :
     ∃ w' outs, progressStep Variant.fixed w = (w', outs, .ok ()) ∧ w'.tag = w.tag ∧ w'.id = w.id ∧ w'.addr = w.addr ∧
       w'.cur = w.cur ∧ w'.addrAdd = w.addrAdd ∧ w'.rest = w.rest ∧ w'.left = w.left ∧ w'.writeLen = w.writeLen ∧
-      (∀ o ∈ outs, o.isNote = false) := by
+      (∀ o ∈ outs, o.isNote = false ∧ ∀ k, o.About k) := by
   unfold progressStep
   split
   · exact ⟨w, [], rfl, rfl, rfl, rfl, rfl, rfl, rfl, rfl, rfl, by simp⟩
@@ -70,13 +83,13 @@ theorem progressStep_fixed (w : WReq) :
     · exact ⟨w, [], by simp [Variant.fixed], rfl, rfl, rfl, rfl, rfl, rfl, rfl, rfl, by simp⟩
     · dsimp only
       split
-      · exact ⟨_, _, rfl, rfl, rfl, rfl, rfl, rfl, rfl, rfl, rfl, by simp [Out.isNote]⟩
+      · exact ⟨_, _, rfl, rfl, rfl, rfl, rfl, rfl, rfl, rfl, rfl, by simp [Out.isNote, Out.About]⟩
       · exact ⟨w, [], rfl, rfl, rfl, rfl, rfl, rfl, rfl, rfl, rfl, by simp⟩
 
 /-- `write_done` of the repaired code on a well-formed request never raises; it keeps the identity of the request -/
 theorem writeDone_fixed {w : WReq} {id : Nat} (h : w.Ok id) (addr : Nat) :
     ∃ w' outs r, writeDone Variant.fixed w addr = (w', outs, .ok r) ∧ w'.tag = w.tag ∧ w'.addr = w.addr ∧ w'.Ok id ∧
-      (∀ o ∈ outs, o.isNote = false) := by
+      (∀ o ∈ outs, o.isNote = false ∧ o.About id) := by
   unfold writeDone
   split
   · exact ⟨w, [], none, rfl, rfl, rfl, h, by simp⟩
@@ -93,20 +106,22 @@ theorem writeDone_fixed {w : WReq} {id : Nat} (h : w.Ok id) (addr : Nat) :
       · simp [WReq.afterChunk, ha]
       · intro o ho
         rcases List.mem_append.1 ho with ho | ho
-        · exact hn o ho
-        · simp at ho; subst ho; rfl
-    · exact ⟨w1, po, some true, rfl, ht, ha, h1, hn⟩
+        · exact ⟨(hn o ho).1, (hn o ho).2 id⟩
+        · simp at ho; subst ho
+          exact ⟨rfl, by simpa [Out.About, h1.1] using headBytes_head id _ _ h1.2.1⟩
+    · exact ⟨w1, po, some true, rfl, ht, ha, h1, fun o ho => ⟨(hn o ho).1, (hn o ho).2 id⟩⟩
 
 theorem startNext_fixed {q : List WReq} {id : Nat} (h : ∀ w ∈ q, w.Ok id) (h0 : ∀ w ∈ q, w.addrAdd = 0) :
     ∃ q' sent, startNext q = (q', .ok sent) ∧ q'.map (·.tag) = q.map (·.tag) ∧ (∀ w ∈ q', w.Ok id) ∧
-      (∀ o ∈ sent, o.isNote = false) ∧ (∀ w ∈ q'.tail, w.addrAdd = 0) := by
+      (∀ o ∈ sent, o.isNote = false ∧ o.About id) ∧ (∀ w ∈ q'.tail, w.addrAdd = 0) := by
   cases q with
   | nil => exact ⟨[], [], rfl, rfl, by simp, by simp, by simp⟩
   | cons n rest =>
     have hn := h n (by simp)
     simp only [startNext]
     rw [writeNewChunk_ok _ (hn.1 ▸ hn.2.1) hn.2.2.1]
-    refine ⟨_, _, rfl, by simp [WReq.afterChunk], ?_, by simp [Out.isNote], ?_⟩
+    refine ⟨_, _, rfl, by simp [WReq.afterChunk], ?_,
+      by simpa [Out.isNote, Out.About, hn.1] using headBytes_head id _ _ hn.2.1, ?_⟩
     · intro w hw
       rcases List.mem_cons.1 hw with rfl | hw
       · exact WReq.afterChunk_ok hn (h0 n (by simp))
@@ -119,7 +134,7 @@ requests (the head may have progressed) and nothing is notified, or the head is 
 theorem handleWriteHead_fixed {w : WReq} {rest : List WReq} {id : Nat} (hw : w.Ok id) (hr : ∀ x ∈ rest, x.Ok id)
     (h0 : ∀ x ∈ rest, x.addrAdd = 0) (addr status : Nat) :
     ∃ q' outs cbs, handleWriteHead Variant.fixed w rest addr status = (q', outs, .ok cbs) ∧
-      (∀ o ∈ outs, o.isNote = false) ∧ (∀ x ∈ q', x.Ok id) ∧ (∀ x ∈ q'.tail, x.addrAdd = 0) ∧
+      (∀ o ∈ outs, o.isNote = false ∧ o.About id) ∧ (∀ x ∈ q', x.Ok id) ∧ (∀ x ∈ q'.tail, x.addrAdd = 0) ∧
       ((q'.map (·.tag) = (w :: rest).map (·.tag) ∧ cbs = []) ∨
        (q'.map (·.tag) = rest.map (·.tag) ∧
          (cbs = [.writeOk w.tag id w.addr] ∨ cbs = [.writeFail w.tag id w.addr]))) := by
@@ -128,7 +143,7 @@ theorem handleWriteHead_fixed {w : WReq} {rest : List WReq} {id : Nat} (hw : w.O
   · obtain ⟨w', outs, r, hd, ht, ha, hok, hn⟩ := writeDone_fixed hw addr
     rw [hd]
     have keep : ∃ q' outs' cbs, ((w' :: rest, outs, (Except.ok [] : Except PyErr (List Out))) = (q', outs', .ok cbs)) ∧
-        (∀ o ∈ outs', o.isNote = false) ∧ (∀ x ∈ q', x.Ok id) ∧ (∀ x ∈ q'.tail, x.addrAdd = 0) ∧
+        (∀ o ∈ outs', o.isNote = false ∧ o.About id) ∧ (∀ x ∈ q', x.Ok id) ∧ (∀ x ∈ q'.tail, x.addrAdd = 0) ∧
         ((q'.map (·.tag) = (w :: rest).map (·.tag) ∧ cbs = []) ∨
          (q'.map (·.tag) = rest.map (·.tag) ∧
            (cbs = [.writeOk w.tag id w.addr] ∨ cbs = [.writeFail w.tag id w.addr]))) := by
@@ -540,10 +555,10 @@ theorem onWriteReply_effect {s : St} (hs : s.Ok) (id addr status : Nat)
         refine St.ok_setQueue hs id q' hs.wkeys (fun k q h => Or.inl h) hok' htl'
       refine ⟨hst, rfl, rfl, ?_, ?_⟩
       · intro k
-        rw [notifR_append, notifR_of_not_note k hn]
+        rw [notifR_append, notifR_of_not_note k (fun o ho => (hn o ho).1)]
         rcases hcase with ⟨_, rfl⟩ | ⟨_, rfl | rfl⟩ <;> simp [notifR]
       · intro k
-        rw [notifW_append, notifW_of_not_note k hn, List.nil_append]
+        rw [notifW_append, notifW_of_not_note k (fun o ho => (hn o ho).1), List.nil_append]
         by_cases hk : k = id
         · subst hk
           have hqt : ({ reads := s.reads, writes := dset s.writes k q', lock := false } : St).queueTags k = q'.map (·.tag) := by
